@@ -19,7 +19,8 @@ ANCHORS = ['pycaption.dfxp.base:DFXPReader._convert_tag_to_node',
            'pycaption.microdvd:MicroDVDReader.read']
 REQUIRE = {'docs_srt': 20, 'docs_webvtt': 20, 'docs_dfxp': 20, 'docs_sami': 20, 'docs_microdvd': 20,
            'lines_compared': 2000, 'lines_with_reference': 200, 'lines_with_inline_tag': 100,
-           'lines_with_unknown_tag': 10, 'lines_with_voice': 5, 'lines_with_double_escape': 20}
+           'lines_with_unknown_tag': 10, 'lines_with_voice': 5, 'lines_with_double_escape': 20,
+           'lines_with_leading_layout_whitespace': 10}
 
 
 def cases(ctx):
@@ -92,6 +93,8 @@ def check(case, ctx):
                 kinds = {s[0] for s in ln}
                 if 'o' in kinds or 'ts' in kinds:
                     ctx.count('lines_with_inline_tag')
+                if 'lead' in kinds:
+                    ctx.count('lines_with_leading_layout_whitespace')
                 if 'unk' in kinds:
                     ctx.count('lines_with_unknown_tag')
                 if any(s[0] == 'o' and s[1] == 'v' for s in ln):
